@@ -31,11 +31,16 @@ L = ["meter", "centimeter", "kilometer", "inch", "foot"]
 T = ["second", "minute", "hour", "millisecond"]
 B = ["byte", "bit", "kibibyte", "kibibit"]  # power-of-two ratios: exact re-expression
 D = ["dimensionless", "percent"]
-A = ["radian", "degree"]
+A = ["radian", "degree", "arcminute", "arcsecond", "milliarcsecond", "turn", "grade"]
+# the values of the pool units, written down here from the SI brochure / NIST SP 811 / IEC 80000-13 rather than read from the definition files
+# (a reader of the same files cannot see a wrong line in them)
+POOL_FACTORS = {"meter": 1.0, "centimeter": 0.01, "kilometer": 1000.0, "inch": 0.0254, "foot": 0.3048, "second": 1.0, "minute": 60.0, "hour": 3600.0, "millisecond": 0.001,
+                "bit": 1.0, "byte": 8.0, "kibibyte": 8192.0, "kibibit": 1024.0, "dimensionless": 1.0, "percent": 0.01, "radian": 1.0, "degree": math.pi / 180, "arcminute": math.pi / 10800,
+                "arcsecond": math.pi / 648000, "milliarcsecond": math.pi / 648000000, "turn": 2 * math.pi, "grade": math.pi / 200}
 
 
 def tasks(tier, seed):
-    return [{"sub": "calls", "shard": i, "nshard": 8} for i in range(8)] + [{"sub": "errors", "shard": 0}, {"sub": "offset", "shard": 0}, {"sub": "coverage", "shard": 0}]
+    return [{"sub": "calls", "shard": i, "nshard": 8} for i in range(8)] + [{"sub": "errors", "shard": 0}, {"sub": "offset", "shard": 0}, {"sub": "coverage", "shard": 0}, {"sub": "methods", "shard": 0}]
 
 
 # ------------------------------------------------------------------------------------- recipe table
@@ -152,7 +157,7 @@ def _dim(R, unit):
 
 
 def _factor(R, unit):
-    return 1.0 if unit == "dimensionless" else float(R.resolve_spelling(unit).factor)
+    return POOL_FACTORS[unit] if unit in POOL_FACTORS else float(R.resolve_spelling(unit).factor)
 
 
 def expected_dim(rec, dims):
@@ -447,6 +452,89 @@ def run_offset(task, tier, seed, col):
     col.exhaustive = True
 
 
+# ------------------------------------------------------------------------------------- ndarray methods follow the quantity's current state
+
+METHODS = ["max", "min", "sum", "mean", "std", "var", "cumsum", "conj", "copy", "ravel", "squeeze", "transpose", "flatten", "round", "prod", "argmax", "any", "astype", "item", "clip", "tolist"]
+M_UNITS = {"length": ["meter", "centimeter", "kilometer", "inch"], "frequency": ["hertz", "terahertz", "kilohertz"]}
+
+
+def _method_call(q, m):
+    if m == "astype":
+        return q.astype(float)
+    if m == "round":
+        return q.round(1)
+    if m == "clip":
+        return q.clip(q.__class__(0.5, q.units), q.__class__(30.0, q.units))
+    if m == "item":
+        return q.item(0) if getattr(q.magnitude, "size", 1) >= 1 and hasattr(q.magnitude, "shape") and q.magnitude.shape else q.item()
+    return getattr(q, m)()
+
+
+def _same_result(np, a, b):
+    if hasattr(a, "_units") != hasattr(b, "_units"):
+        return False
+    if hasattr(a, "_units"):
+        return dict(a._units) == dict(b._units) and _same_result(np, a.magnitude, b.magnitude)
+    try:
+        return bool(np.array_equal(np.asarray(a), np.asarray(b), equal_nan=True)) and np.shape(a) == np.shape(b)
+    except (TypeError, ValueError):
+        return a == b
+
+
+def case_methods(case, col=None):
+    """a history of method calls and in-place state changes on ONE quantity; after every step each method call must equal the same call on a quantity
+    freshly built from the current magnitude and units, whose own unit in turn must be the semantic one"""
+    import copy
+
+    import numpy as np
+
+    ureg = env.ureg("float")
+    init = case["init"]
+    mag = float(init[0]) if case["rank"] == "scalar" else (np.array(float(init[0])) if case["rank"] == "zero" else (np.array(init[:4], dtype=float).reshape(2, 2) if case["rank"] == "two" else np.array(init, dtype=float)))
+    q = ureg.Quantity(mag, case["unit"])
+    kind = "length"
+    changes = calls_after_change = 0
+    for step in case["steps"]:
+        op = step[0]
+        if op == "call":
+            fresh = ureg.Quantity(copy.deepcopy(q.magnitude), q.units)
+            sg, got = attempt(_method_call, q, step[1])
+            sw, want = attempt(_method_call, fresh, step[1])
+            calls_after_change += 1 if changes else 0
+            if sg != sw or (sg == "err" and type(got) is not type(want)):
+                raise Violation(f"ndarray_method_depends_on_history:{step[1]}:outcome", f"{case}: after the steps before it, q.{step[1]}() -> {got!r}; on a fresh quantity of the same magnitude and unit -> {want!r}")
+            if sg == "ok" and not _same_result(np, got, want):
+                raise Violation(f"ndarray_method_depends_on_history:{step[1]}", f"{case}: q = {q!r}; q.{step[1]}() = {got!r}, on a fresh quantity of the same magnitude and unit {want!r}")
+            if sg == "ok" and step[1] in ("max", "min", "sum", "mean", "std", "cumsum", "copy", "ravel", "flatten", "round", "clip") and (not hasattr(got, "_units") or dict(got._units) != dict(q._units)):
+                raise Violation(f"ndarray_method_wrong_unit:{step[1]}", f"{case}: q = {q!r}; q.{step[1]}() = {got!r}")
+            continue
+        changes += 1
+        if op == "ito":
+            q.ito(M_UNITS[kind][step[1] % len(M_UNITS[kind])])
+        elif op == "ctx":
+            kind = "frequency" if kind == "length" else "length"
+            q.ito(M_UNITS[kind][step[1] % len(M_UNITS[kind])], "sp")
+        elif op == "imul":
+            q *= float(step[1])
+        elif op == "base":
+            q.ito_base_units()
+        elif op == "set" and hasattr(q.magnitude, "shape") and q.magnitude.shape:
+            q[(0,) * q.magnitude.ndim] = ureg.Quantity(float(step[1]), q.units)
+    if col is not None:
+        col.case(("m", case["rank"], case["unit"], tuple(tuple(s) for s in case["steps"])), calls_after_change > 0, sample=case, cls=case["rank"])
+
+
+def _methods_strategy():
+    step = st.one_of(st.tuples(st.just("call"), st.sampled_from(METHODS)), st.tuples(st.just("call"), st.sampled_from(METHODS)), st.tuples(st.just("ito"), st.integers(0, 3)), st.tuples(st.just("ctx"), st.integers(0, 2)),
+                     st.tuples(st.just("imul"), st.sampled_from([2, 3, 0.5])), st.tuples(st.just("base"), st.just(0)), st.tuples(st.just("set"), st.integers(1, 9)))
+    return st.fixed_dictionaries({"rank": st.sampled_from(["scalar", "zero", "one", "two"]), "unit": st.sampled_from(M_UNITS["length"]),
+                                  "init": st.lists(st.integers(1, 40).map(lambda v: v + 0.26), min_size=4, max_size=5), "steps": st.lists(step, min_size=2, max_size=8).map(lambda l: [list(x) for x in l])})
+
+
+def run_methods(task, tier, seed, col):
+    hyp_search(col, _methods_strategy(), lambda c: case_methods(c, col), max_examples=1500 if tier == "quick" else 15000, seed=seed * 263 + 5, max_buckets=8)
+
+
 # ------------------------------------------------------------------------------------- which handled names have a recipe
 
 def run_coverage(task, tier, seed, col):
@@ -462,8 +550,8 @@ def run_coverage(task, tier, seed, col):
 
 
 def run_task(task, tier, seed, col):
-    {"calls": run_calls, "errors": run_errors, "offset": run_offset, "coverage": run_coverage}[task["sub"]](task, tier, seed, col)
+    {"calls": run_calls, "errors": run_errors, "offset": run_offset, "coverage": run_coverage, "methods": run_methods}[task["sub"]](task, tier, seed, col)
 
 
 def replay(sub, case):
-    return {"calls": case_call, "errors": case_error, "offset": case_offset}[sub](case)
+    return {"calls": case_call, "errors": case_error, "offset": case_offset, "methods": case_methods}[sub](case)
